@@ -21,7 +21,7 @@ for d in sorted(glob.glob('/verif/seeded/C*-*')):
     checks=re.findall(r'check (C\d+) exit=(\d+)',ev)
     rechecks=re.findall(r'(C\d+) exit=(\d+)',extra)
     caught=[c for c,e in checks if e=='1']; missed=[c for c,e in checks if e=='0']
-    later=[c for c,e in rechecks if e=='1' and c in missed]
+    later=[c for c,e in rechecks if e=='1']
     rows.append((sid, meta.get('title','')[:90], demo0.group(1) if demo0 else '?', demo1.group(1) if demo1 else '?', 'ok' if suite and not suite.group(1).strip() else ('see eval.txt' if suite else '?'), ','.join(caught) or '-', ','.join(m for m in missed if m not in later) or '-', ','.join(later) or '-'))
 with open('/verif/seeded/SUMMARY.md','w') as f:
     f.write('# Independently seeded changes and which checks catch them\n\nEach directory: patch.diff (the change), demo.rs (fails with the change, passes without), meta.json (what it breaks / needs), eval.txt (scripts/seed_eval.sh output: demo on HEAD, demo with patch, pinned suite with patch, quick checks against HEAD+patch), reeval.txt (re-run after a check was strengthened).\n\n')
